@@ -8,4 +8,4 @@ cp gen/model.ml gen/model.mli _build/
 cp conv.ml *_driver.ml driver.ml _build/
 cd _build
 SRC="model.mli model.ml conv.ml $(ls *_driver.ml | tr '\n' ' ') driver.ml"
-ocamlfind ocamlopt -O3 -package str -linkpkg -w -a $SRC -o driver 2>/dev/null || ocamlfind ocamlopt -package str -linkpkg -w -a $SRC -o driver
+ocamlfind ocamlopt -package str -linkpkg -w -a $SRC -o driver
